@@ -7,6 +7,9 @@
    replaced by an explicit choice list: initial starts, initial seed set, and per
    call of next() (hold-out z, outcome of update_holdout, outcome of the zoops
    information-content comparison).  Every Rust panic site is a [Panic n].
+   (The float-driven step function -- choices computed by the binary32/binary64 model of
+   SamplerF32.v -- is the subject of the second property file C16F.v; the translated
+   statement lists of sampler.rs are tied to this model in SamplerSkel.v.)
 
    Vocabulary used by the statements (all defined in the model / lemma files):
      recompute_motif K W data act starts   count matrix recomputed from the alignment
